@@ -98,3 +98,28 @@ claim("C20", "ADT type-tree walk for interior mutability; rustc trait-solver ver
       N + "Clones share only Arc<Shared>, whose type tree has no interior mutability except one relaxed atomic; nothing mutates through the Arc; that atomic is stored at one site after the signature check with a value "
       "derived from header_start and bytes this handle read, and loaded only by accessors; opening takes &mut self and begins with an absolute seek; Shared/ZipFileData: Send + Sync per rustc. Also: no process-global mutable state (static with interior mutability, static mut, thread-local) anywhere in the crate.",
       "Residue: actual multi-threaded executions; readers whose Clone shares a cursor.", "DESIGN.md §3 C20")
+
+# Round 5 additions (appended to the level text of the claims above)
+_OPEN = ("Round 5: on every path of every public opener the mode handed to start_entry carries exactly the opener's file-type bits and the caller's timestamp / large-file flag / "
+         "encryption keys (method, level) are untouched (field-sensitive value flow); start_entry records each option-derived field unconditionally.")
+_REF_R = "Round 5: refusal inventory of the reader side -- per function and kind, the number of distinct own errors equals the reviewed table (no new way to turn an archive away, none dropped)."
+_REF_W = "Round 5: refusal inventory of the writer side -- per function and kind, the number of distinct own errors equals the reviewed table."
+ADDENDA.update({
+    "C01": _OPEN + " " + _REF_R + " " + _REF_W + " ZIP64 end records: no clamped or narrowed value in a 64-bit field, in the locator or in the condition that decides whether they are written.",
+    "C02": "Round 5: ZIP64 end records refuse clamped/narrowed values in 64-bit fields and in their emit condition; start_entry's record fields are the options, unconditionally.",
+    "C03": _REF_R + " Every entry opened for decoding reads through find_content(..)? on every path.",
+    "C04": "Round 5: ZipFileReader::Raw (no checksum wrapper) is built only by the raw accessors and get_reader stores nothing but make_reader(..); the crate's impl Read / impl Write define only the required methods (no read_to_end / read_exact override can bypass the end-of-data check).",
+    "C07": "Round 5: extractors mutate the filesystem only through create_dir_all / File::create / set_permissions (idempotent on an existing tree; nothing removed, renamed or linked).",
+    "C08": "Round 5: as C02; the large_file request reaches the entry through every opener; streamed ZIP64 entries are bounded after the local ZIP64 record was decoded.",
+    "C09": "Round 5: the checksum verdict is tied to Ok(0) of the inner reader only (a short read is not the end of data); provided I/O methods are not overridden.",
+    "C10": _REF_R,
+    "C12": _REF_W + " A partially accepted write is accounted as exactly the accepted bytes.",
+    "C13": _REF_W + " " + _REF_R + " Appended entries are recorded as asked for; re-emitted external attributes are shifted where the word is built.",
+    "C14": _REF_W + " The raw window is the entry's whole compressed stream for empty entries too.",
+    "C15": _OPEN + " " + _REF_R,
+    "C16": _REF_R + " No password for an AES entry => InvalidPassword on every such path, never plaintext.",
+    "C17": _OPEN + " " + _REF_W + " Extra-data bytes never reach the CRC/size accounting over all call sequences.",
+    "C18": _OPEN,
+    "C19": "Round 5: name and comment bytes are read with exact-length primitives in both parsers.",
+    "C20": "Round 5: opening an entry records its data start itself on every path (find_content is never skipped), so what a handle reports does not depend on a clone's history.",
+})
